@@ -292,6 +292,28 @@ func cmdCheck(args []string) int {
 			fmt.Printf("  harness=%s %s %s site=%s %s\n", h.Func, v.Kind, v.Name, v.Site, v.Detail)
 		}
 	}
+	// native validation of sampled passing paths (translator validation), one go test per package
+	byPkg := map[string][]ValidationCase{}
+	for _, r := range results {
+		byPkg[r.Spec.Pkg] = append(byPkg[r.Spec.Pkg], r.Cases...)
+	}
+	validatedTotal := 0
+	for pkgRel, cases := range byPkg {
+		n, mism, err := nativeValidate(l, pkgRel, cases)
+		if err != nil {
+			inconclusive = append(inconclusive, "native validation failed to run for "+pkgRel+": "+err.Error())
+			continue
+		}
+		validatedTotal += n
+		for _, mm := range mism {
+			fmt.Printf("VALIDATION-MISMATCH %s\n", mm)
+			inconclusive = append(inconclusive, "native validation mismatch in "+pkgRel)
+		}
+	}
+	if len(results) > 0 {
+		results[0].Validated += validatedTotal
+	}
+	fmt.Printf("native validation: %d sampled passing paths replayed natively and agreed\n", validatedTotal)
 	// known findings that no longer reproduce are reported (not an error: they may have been fixed)
 	for kid, k := range known {
 		if k.Property == id && k.Status != "fixed" && !knownSeen[kid] && *only == "" {
